@@ -451,8 +451,11 @@ NewBatch(s, id) ==
   ELSE
     LET c == s.ctx[id] IN
     IF c.state # "running" THEN [st |-> DelNew(s, id, s.h), scbs |-> <<>>, over |-> 0]
-    \* F20: the handler returns before DeleteNewRequestBatch
-    ELSE IF RateError(s, c) THEN [st |-> s, scbs |-> <<>>, over |-> 0]
+    \* no exchange rate (fix 6da0f9d, was finding F20): DeleteNewRequestBatch, then
+    \* OnRequestContextPaused exactly as for insufficient balances
+    ELSE IF RateError(s, c)
+    THEN [st |-> DelNew([s EXCEPT !.ctx[id].bstate = "completed", !.ctx[id].state = "paused"], id, s.h),
+          scbs |-> IF c.module # "" THEN <<id>> ELSE <<>>, over |-> 0]
     ELSE
       LET el == Eligible(s, c)
           fees == [i \in DOMAIN el |-> FeeOf(s.bind[c.svc][el[i]], s.now, VolOf(s, c.svc, el[i], c.consumer))]
@@ -550,9 +553,6 @@ Apply(s, e) ==
 (*   intr[c]          c was seen not running since its last batch          *)
 (*   cbn[c][n]        response-callback firings for batch n of c           *)
 (*   expd[c][n]       times batch n of c was observed completing           *)
-(*   stale[c]         finding F20 observed on c: its due new-batch entry   *)
-(*                    survived an end-block while a usable provider of c   *)
-(*                    was priced in a denom that needs an exchange rate    *)
 (*   f4               cumulative overcharge attributable to finding F4:    *)
 (*                    sum over created requests of (list price - fee)      *)
 (***************************************************************************)
@@ -578,12 +578,8 @@ F4Step(s, e, t) ==
   THEN SumOver([r \in NewReqs(s, t) |-> ListPrice(s, t, r) - t.req[r].fee], NewReqs(s, t))
   ELSE 0
 
-StaleNow(s, e, t, id) ==
-  /\ e.name = "EndBlock" /\ <<s.h, id>> \in t.newQ
-  /\ id \in DOMAIN s.ctx /\ s.ctx[id].state = "running" /\ RateError(s, s.ctx[id])
-
 GhostInit == [ans |-> EmptyF, exp |-> EmptyF, batchAt |-> EmptyF, modified |-> EmptyF,
-              intr |-> EmptyF, cbn |-> EmptyF, expd |-> EmptyF, stale |-> EmptyF, f4 |-> 0]
+              intr |-> EmptyF, cbn |-> EmptyF, expd |-> EmptyF, f4 |-> 0]
 
 CountCbs(e, id, n) == Cardinality({i \in DOMAIN e.cbs : e.cbs[i].ctx = id /\ e.cbs[i].batch = n})
 
@@ -614,7 +610,6 @@ GhostStep(g, s, e, t) ==
                IF Completes(s, t, id)
                THEN bump(Get(g.expd, id, EmptyF), id, s.ctx[id].batch, 1)
                ELSE Get(g.expd, id, EmptyF)],
-   stale |-> [id \in cs |-> Get(g.stale, id, FALSE) \/ StaleNow(s, e, t, id)],
    f4 |-> g.f4 + F4Step(s, e, t)]
 
 -----------------------------------------------------------------------------
@@ -773,10 +768,8 @@ C08_OneShot(s, e, t) ==
 
 (* C08: schedule of a repeated context.  g0 = the ghost state BEFORE the step *)
 (* relax = TRUE: modulo finding F21 (a context paused across the expiry of its
-   last batch is not completed; Start then issues batches beyond the total);
-   relax20 = TRUE: modulo finding F20 (no batch is issued and the queue entry
-   is left behind when provider filtering fails for lack of an exchange rate) *)
-ScheduleX(s, e, t, g0, relax, relax20) ==
+   last batch is not completed; Start then issues batches beyond the total) *)
+ScheduleX(s, e, t, g0, relax) ==
   /\ \A id \in DOMAIN s.ctx \cap DOMAIN t.ctx :
        LET c == s.ctx[id]
            d == t.ctx[id]
@@ -794,10 +787,10 @@ ScheduleX(s, e, t, g0, relax, relax20) ==
           /\ (e.name = "EndBlock" /\ steady /\ d.batch = n + 1) => s.h = at[n] + c.freq
           \* ... and it is issued then (unless the consumer cannot pay)
           /\ (e.name = "EndBlock" /\ steady /\ (c.total < 0 \/ n < c.total) /\ s.h = at[n] + c.freq)
-               => (d.batch = n + 1 \/ d.state = "paused" \/ (relax20 /\ RateError(s, c)))
+               => (d.batch = n + 1 \/ d.state = "paused")
           \* a queued new batch of a running context is issued at its height
           /\ (e.name = "EndBlock" /\ <<s.h, id>> \in s.newQ /\ c.state = "running")
-               => (d.batch = n + 1 \/ d.state = "paused" \/ (relax20 /\ RateError(s, c)))
+               => (d.batch = n + 1 \/ d.state = "paused")
           \* the end-blocker changes the state only by pausing for lack of funds
           /\ (e.name = "EndBlock") => d.state \in {c.state, "paused"}
   \* after Start the next batch is queued for this very block unless one is scheduled
@@ -810,10 +803,8 @@ ScheduleX(s, e, t, g0, relax, relax20) ==
        /\ \/ s.ctx[id].state = "completed"
           \/ (s.ctx[id].state = "running" /\ s.ctx[id].total >= 0 /\ s.ctx[id].batch >= s.ctx[id].total)
 
-C08_Schedule(s, e, t, g0) == ScheduleX(s, e, t, g0, FALSE, FALSE)
-C08_Schedule_ModF21(s, e, t, g0) == ScheduleX(s, e, t, g0, TRUE, FALSE)
-C08_Schedule_ModF20(s, e, t, g0) == ScheduleX(s, e, t, g0, FALSE, TRUE)
-C08_Schedule_ModF(s, e, t, g0) == ScheduleX(s, e, t, g0, TRUE, TRUE)
+C08_Schedule(s, e, t, g0) == ScheduleX(s, e, t, g0, FALSE)
+C08_Schedule_ModF21(s, e, t, g0) == ScheduleX(s, e, t, g0, TRUE)
 
 C08_Authority(s, e) ==
   /\ (e.name \in {"Pause", "Start", "Kill", "Update"} /\ e.ok) =>
@@ -854,9 +845,9 @@ C08_Funds(s, e, t) ==
 
 -----------------------------------------------------------------------------
 (* C13 for the service queues *)
-QueueSoundX(t, g, relax20) ==
+C13_QueueSound(t) ==
   /\ \A q \in t.newQ :
-       /\ q[2] \in DOMAIN t.ctx /\ (q[1] >= t.h \/ (relax20 /\ Get(g.stale, q[2], FALSE)))
+       /\ q[2] \in DOMAIN t.ctx /\ q[1] >= t.h
        /\ q[2] \in DOMAIN t.newH /\ t.newH[q[2]] = q[1]
   /\ \A q \in t.expQ :
        /\ q[2] \in DOMAIN t.ctx /\ q[1] >= t.h
@@ -869,8 +860,6 @@ QueueSoundX(t, g, relax20) ==
   /\ \A q1, q2 \in t.newQ : q1[2] = q2[2] => q1 = q2
   /\ \A q1, q2 \in t.expQ : q1[2] = q2[2] => q1 = q2
   /\ DOMAIN t.newH \cap DOMAIN t.expH = {}
-C13_QueueSound(t) == QueueSoundX(t, GhostInit, FALSE)
-C13_QueueSound_ModF20(t, g) == QueueSoundX(t, g, TRUE)
 
 C13_QueueComplete(t) ==
   /\ \A id \in DOMAIN t.ctx :
@@ -879,10 +868,9 @@ C13_QueueComplete(t) ==
   /\ \A r \in t.active :
        r \in DOMAIN t.req /\ <<t.req[r].expH, t.req[r].ctx>> \in t.expQ
 
-OnceOnTimeX(s, e, t, g, relax20) ==
+C13_OnceOnTime(s, e, t, g) ==
   /\ (e.name = "EndBlock") =>
-       /\ \A q \in t.newQ : q[1] > s.h \/ (relax20 /\ Get(g.stale, q[2], FALSE))
-       /\ \A q \in t.expQ : q[1] > s.h
+       /\ \A q \in t.newQ \cup t.expQ : q[1] > s.h
        /\ \A q \in s.expQ : q[1] # s.h => q \in t.expQ
        /\ \A q \in s.newQ : q[1] # s.h => q \in t.newQ
   /\ (e.name # "EndBlock") =>
@@ -895,8 +883,6 @@ OnceOnTimeX(s, e, t, g, relax20) ==
             /\ e.name = "EndBlock" /\ t.ctx[id].batch = s.ctx[id].batch + 1
             /\ (<<s.h, id>> \in s.newQ \/ <<s.h, id>> \in s.expQ)
   /\ \A id \in DOMAIN g.expd : \A n \in DOMAIN g.expd[id] : g.expd[id][n] <= 1
-C13_OnceOnTime(s, e, t, g) == OnceOnTimeX(s, e, t, g, FALSE)
-C13_OnceOnTime_ModF20(s, e, t, g) == OnceOnTimeX(s, e, t, g, TRUE)
 
 C13_NoHalt(e) == ~e.halt
 
@@ -1017,7 +1003,7 @@ SetupA == << BSpec("u1", "u1", 8, 4, 2, 0, 1000, 4, 0, 1), BSpec("u2", "u2", 6, 
 SetupB == << BSpec("u1", "u1", 8, 4, 2, 0, 1000, 4, 0, 1), BSpec("u2", "u1", 3, 3, 4, 0, 0, 2, 1, 1) >>
 (* no discounts (F4 cannot occur) *)
 SetupC == << BSpec("u1", "u1", 8, 4, 4, 0, 0, 4, 0, 1), BSpec("u2", "u2", 6, 3, 4, 0, 0, 4, 0, 2) >>
-(* u2 priced 0btc: needs the (absent) exchange rate — finding F20 *)
+(* u2 priced 0btc: needs the (absent) exchange rate (was finding F20, fixed) *)
 SetupD == << BSpec("u1", "u1", 8, 4, 2, 0, 1000, 4, 0, 1),
              [pdenom |-> "btc"] @@ BSpec("u2", "u2", 6, 0, 4, 0, 0, 4, 0, 1) >>
 ProvSeqsA == { <<"u1">>, <<"u1", "u2">> }
@@ -1046,7 +1032,6 @@ Inv_C07_RequestEscrow == C07_RequestEscrow(st)
 Act_C07_RequestEscrow_ModF4 == [][C07_RequestEscrow_ModF4(st', gh')]_vars
 Inv_C07_OwnerTally == C07_OwnerTally(st)
 Inv_C13_QueueSound == C13_QueueSound(st)
-Act_C13_QueueSound_ModF20 == [][C13_QueueSound_ModF20(st', gh')]_vars
 Inv_C13_QueueComplete == C13_QueueComplete(st)
 Act_C13_NoHalt == [][C13_NoHalt(ev')]_vars
 
@@ -1064,12 +1049,10 @@ Act_C08_RespondGuards == [][C08_RespondGuards(st, ev')]_vars
 Act_C08_OneShot == [][C08_OneShot(st, ev', st')]_vars
 Act_C08_Schedule == [][C08_Schedule(st, ev', st', gh)]_vars
 Act_C08_Schedule_ModF21 == [][C08_Schedule_ModF21(st, ev', st', gh)]_vars
-Act_C08_Schedule_ModF == [][C08_Schedule_ModF(st, ev', st', gh)]_vars
 Act_C08_Authority == [][C08_Authority(st, ev')]_vars
 Act_C08_Callback == [][C08_Callback(st, ev', st', gh')]_vars
 Act_C08_Funds == [][C08_Funds(st, ev', st')]_vars
 Act_C13_OnceOnTime == [][C13_OnceOnTime(st, ev', st', gh')]_vars
-Act_C13_OnceOnTime_ModF20 == [][C13_OnceOnTime_ModF20(st, ev', st', gh')]_vars
 
 (* VIEW for the exhaustive configs: ghosts and the last event are functions of
    the path *)
